@@ -9,6 +9,21 @@ TRUST = ("TLC 1.8 + CommunityModules; CPython 3.12 asyncio semantics under the d
          "aiohttp code paths only (no C extensions are built in this tree)")
 
 CHECKS = {
+ "C01": dict(
+   technique="RFC 9112 reference reader in TLA+ (HttpFraming.tla) model-checked exhaustively over a lexeme alphabet; TLC-simulated "
+             "lexeme paths plus grammar-generated, mutated and random byte streams are fed to the real HttpRequestParser and "
+             "RequestHandler, and every recorded execution is judged against the reference by TLC trace validation "
+             "(HttpFramingTrace.tla)",
+   text="Bounded exhaustive model checking of the reference's internal invariants (every consumed byte belongs to exactly one "
+        "message, no body without framing, never both Content-Length and Transfer-Encoding, Host on every HTTP/1.1 request, "
+        "reject is final) plus conformance: for each stream the parser's verdict, message boundaries, method/target/version/"
+        "fields, body bytes and chunk boundaries, and the server connection's dispatched requests and its one-4xx-and-close "
+        "behaviour must equal the strict reading; TLC decides.",
+   design_ref="DESIGN.md §4 C01",
+   note="the reference is a reading of RFC 9112 / 9110 section 5 (target checked at byte-class level plus authority syntax, not "
+        "full RFC 3986); permitted alternatives (method case, TE gzip,chunked per THREAT_MODEL 1.8, other HTTP versions, obs-text "
+        "in target) are listed in the evidence; segmentations and positions sampled in quick, exhaustive per stream in thorough; "
+        "pure-Python parser only; " + TRUST),
  "C02": dict(
    technique="Exhaustive TLC enumeration of the implementation-shaped framing / keep-alive decision tables of both ends "
              "(WireDecision.tla) against the RFC 9112 section 6.3 body-length oracle, bound to the code by TLC trace validation "
@@ -24,6 +39,18 @@ CHECKS = {
         "randomised; in-memory transports with FINs delivered at loop idle (a legal schedule used as observation device); body "
         "digests CRC-32 after a one-shot zlib decode by the harness (brotli/zstd not exercised); independent wire splitter whose "
         "arithmetic is re-checked in TLA+; " + TRUST),
+ "C03": dict(
+   technique="Segmentation-free TLA+ reference (HttpFraming.tla) whose cut-invariance is model-checked over every read pattern of "
+             "short lexeme streams; each stream's real parser/connection runs under whole, every single cut, byte-at-a-time, "
+             "random and all-pairs segmentations x 6 limit configs are merged losslessly into distinct outcomes, which TLC judges "
+             "against the reference and against each other (HttpFramingTrace.tla GroupClause)",
+   text="Exhaustive check that the reference outcome is a function of the bytes read (InvCut, up to 4-lexeme streams, reads of "
+        "1/2/3/all) plus conformance: all observed segmentations of a stream yield the same verdict, messages, bodies and chunk "
+        "boundaries, and match the reference, for request and response parsers and for server and client connections "
+        "(quick: 387,744 runs in 2,443 groups).",
+   design_ref="DESIGN.md §4 C03",
+   note="single cuts exhaustive per stream, pairs only in thorough for <= 90 B; early or late notice of a rejection allowed "
+        "(pending header block, one read of slack); the consumer drains payloads after every read; response parser in lax mode; " + TRUST),
  "C04": dict(
    technique="TLC exhaustively checks an explicit TLA+ model of the header-serialisation rule and of all StreamWriter call sequences "
              "(HttpWriter.tla); the same TLA+ clause functions then judge, via an independent in-TLA+ CRLF splitter and chunk "
@@ -128,6 +155,19 @@ CHECKS = {
    note="zlib, brotli and zstd are trusted (reference = their one-shot decode, CRC digests); Brotli's output limit is soft (bound "
         "2 x limit + 32 KiB per call); decode calls observed through a harness-side wrapper; read()/read(-1) lift the memory bound "
         "by design; codec abstract in the model, zstd block buffering and the reader's chunk-count water mark not modelled; " + TRUST),
+ "C10": dict(
+   technique="TLA+ reference with limit constants (HttpFraming.tla) model-checked over limit-1/0/+1 lexemes; real parser and "
+             "server/client connection runs on limit families, hostile targets, mutations and random bytes are instrumented with a "
+             "sys.monitoring line-event counter scoped to http_parser.py; totality, must-reject, retention and linear-work clauses "
+             "are judged by TLC trace validation (HttpFramingTrace.tla)",
+   text="Exhaustive bounded check that over-limit constructs end rejected and that the reader never waits on more than limit+1 "
+        "unterminated bytes; conformance: only HttpProcessingError subclasses leave feed_data/feed_eof (400 + close on the server, "
+        "client error + close on the client); over-limit lines and counts are rejected in every syntactic position; retained bytes "
+        "<= limits + one read; Python-level work per call and per run stays within linear bounds.",
+   design_ref="DESIGN.md §4 C10",
+   note="work counts Python line events only (constants fitted x4 on the unchanged tree; never wall clock); retention read from "
+        "private buffers (skipped if they disappear); one read of slack for an unterminated line; header count may be enforced 3 "
+        "lines early; " + TRUST),
  "C11": dict(
    technique="Implementation-shaped TLA+ model of concurrent senders through WebSocketWriter (WsSend.tla) checked exhaustively by "
              "TLC; TLC schedules and seeded random schedules executed on the real writer -> reader pipe under the stepping loop "
